@@ -108,7 +108,7 @@ Diff(S, c, o) ==
   IN  dbd \cup sd \cup ud \cup cd \cup rd \cup xd \cup nd
 
 MailsObs(ms) == {[to |-> ToSet(m.to), kind |-> m.kind, tok |-> m.tok] : m \in ToSet(ms)}
-MailsSpec(ms) == {[to |-> {m.to}, kind |-> m.kind, tok |-> m.tok] : m \in ms}
+MailsSpec(ms) == ms
 SmsObsSet(ss) == {[phone |-> s.phone, code |-> s.code] : s \in ToSet(ss)}
 
 RespDiff(r, o) ==
@@ -123,8 +123,8 @@ RespDiff(r, o) ==
 RespFromObs(o) ==
   [class |-> o.class, loc |-> o.loc, ran |-> o.ran, seenUser |-> o.seenUser,
    seenKeys |-> ToSet(o.seenKeys),
-   mails |-> {[to |-> CHOOSE x \in m.to : TRUE, kind |-> m.kind, tok |-> m.tok] : m \in {y \in MailsObs(o.mails) : y.to # {}}},
-   sms |-> SmsObsSet(o.sms), shown |-> {}]
+   mails |-> MailsObs(o.mails),
+   sms |-> SmsObsSet(o.sms), shown |-> {}, leaks |-> {x.where : x \in ToSet(o.leaks)}]
 
 -----------------------------------------------------------------------------
 
